@@ -153,7 +153,8 @@ def parse_dump(line):
         find[int(k)] = h
     kw = [int(x) for x in parts[3].split()[1:]]
     by = [g.split() for g in parts[4][2:].strip().split(";") if g.strip() != ""]
-    return dict(cnt=int(head["cnt"]), max=int(head["max"]), nodes=nodes, find=find, kw=kw, by=by)
+    above = parts[5].split()[1:] if len(parts) > 5 else []
+    return dict(cnt=int(head["cnt"]), max=int(head["max"]), nodes=nodes, find=find, kw=kw, by=by, above=above)
 
 
 class Oracle:
@@ -225,6 +226,9 @@ class Oracle:
                 return f"instance at position {i} has state {n['st']}, expected {self.state.get(n['h'])}"
             if n["id"] != self.ids.get(n["h"]):
                 return f"instance {n['h']} carries id {n['id']}, last assigned {self.ids.get(n['h'])}"
+        if any("X" in a for a in d["above"]):
+            return (f"look-up by index at/above the count ({d['cnt']}) answers an instance or node "
+                    f"(GetApplication_instance/GetMgrNode at count+0..2: {d['above']}): there is no such live instance")
         ids = [n["id"] for n in d["nodes"]]
         if len(set(ids)) != len(ids):
             return f"two live instances carry the same id: {ids}"
@@ -383,7 +387,7 @@ def run(ctx):
     corpus = []
     if os.path.isdir(cdir):
         for f in sorted(os.listdir(cdir)):
-            corpus.append([tuple(int(x) if x.lstrip("-").isdigit() else x for x in o) for o in json.load(open(os.path.join(cdir, f)))["ops"]])
+            corpus.append([tuple(int(x) if isinstance(x, int) or str(x).lstrip("-").isdigit() else x for x in o) for o in json.load(open(os.path.join(cdir, f)))["ops"]])
     if corpus:
         batches.append(("corpus", corpus, 1))
     depth = 5 if quick else 6
